@@ -724,6 +724,27 @@ fn check(case: &Case, obs: &mut Obs) -> Result<(), Failure> {
             }
         }
     }
+    // the first stack argument sits where the descriptor says stack arguments start, and where
+    // the platform ABI puts it: above the return address on x86 (4) and amd64 (8), above the
+    // 16-byte home area on MIPS o32, at the stack pointer itself on AArch64 (AAPCS64 6.8.2 C.14-16;
+    // the return address is in x30); PowerPC: consistency only
+    if let Some(first) = cc.argument_type(nreg).stack() {
+        if first != cc.stack_argument_offset() {
+            bad(format!("C20|{}|cc|first-stack-argument|descriptor", fam), format!("argument_type({}) = Stack({}) but stack_argument_offset() = {}", nreg, first, cc.stack_argument_offset()));
+        }
+        let abi_first = match name {
+            "x86" => Some(4),
+            "amd64" => Some(8),
+            "mips" | "mipsel" => Some(16),
+            "aarch64" | "aarch64eb" => Some(0),
+            _ => None,
+        };
+        if let Some(want) = abi_first {
+            if first != want {
+                bad(format!("C20|{}|cc|first-stack-argument|abi", fam), format!("the first stack argument is at offset {}, the ABI puts it at {}", first, want));
+            }
+        }
+    }
     for (n, r) in cc.argument_registers().iter().enumerate() {
         if cc.argument_type(n).register() != Some(r) {
             bad(format!("C20|{}|cc|argument-type", fam), format!("argument_type({}) is not the register {}", n, r));
